@@ -138,3 +138,69 @@ Example C02_rank_select_nonvacuous :
   select_in_word (2^63) 0 = Some 63 /\
   nth_error select8Lookup (8 * 128 + 0) = Some 7.
 Proof. vm_compute. intuition congruence. Qed.
+
+(** * widened: the library's select composed with the library's rank (Rank64 / Rank128 of C01)
+
+    [spec_SelectFrom ws p] (Spec/SelectRankSpec.v) = (first 1-bit at position >= p, the 1-bit
+    after it or [64 * len]), by filtering the list of 1-positions. *)
+From Low Require Import Spec.SelectRankSpec Proofs.SelectRank.
+
+(** rank (select i) = i also through Rank128 *)
+Theorem C02_Rank128_of_Select32 : forall ws sidx i a b, words_ok ws ->
+  IndexSelect32 ws = Some sidx -> 0 <= i < zlen (all_ones ws) ->
+  Select32 ws sidx i = Some (a, b) ->
+  Rank128 ws (IndexRank128 ws) a = Some (i, 1).
+Proof. exact Rank128_Select32. Qed.
+Print Assumptions C02_Rank128_of_Select32.
+
+Theorem C02_Rank128_of_Select32R64 : forall ws sidx ridx i a b, words_ok ws ->
+  IndexSelect32R64 ws = Some (sidx, ridx) -> 0 <= i < zlen (all_ones ws) ->
+  Select32R64 ws sidx ridx i = Some (a, b) ->
+  Rank128 ws (IndexRank128 ws) a = Some (i, 1).
+Proof. exact Rank128_Select32R64. Qed.
+Print Assumptions C02_Rank128_of_Select32R64.
+
+(** select (rank p) = the first 1-bit at or after p (and the one after it), for ANY position p
+    that has a 1-bit at or after it — p need not be a 1-bit *)
+Theorem C02_Select32_of_Rank64 : forall ws tr sidx p r b, words_ok ws ->
+  IndexSelect32 ws = Some sidx -> 0 <= p < 64 * zlen ws ->
+  Rank64 ws (IndexRank64 ws tr) p = Some (r, b) -> r < zlen (all_ones ws) ->
+  Select32 ws sidx r = Some (spec_SelectFrom ws p).
+Proof. exact Select32_after_Rank64. Qed.
+Print Assumptions C02_Select32_of_Rank64.
+
+Theorem C02_Select32R64_of_Rank128 : forall ws sidx ridx p r b, words_ok ws ->
+  IndexSelect32R64 ws = Some (sidx, ridx) -> 0 <= p < 64 * zlen ws ->
+  Rank128 ws (IndexRank128 ws) p = Some (r, b) -> r < zlen (all_ones ws) ->
+  Select32R64 ws sidx ridx r = Some (spec_SelectFrom ws p).
+Proof. exact Select32R64_after_Rank128. Qed.
+Print Assumptions C02_Select32R64_of_Rank128.
+
+(** the value [spec_SelectFrom] names is the least 1-position >= p: it is >= p, a 1-bit, every
+    position in between is 0, and it is p itself when p is a 1-bit (select (rank p) = p) *)
+Theorem C02_select_of_rank_least : forall ws p, 0 <= p ->
+  rank1z (flat ws) p < zlen (all_ones ws) ->
+  let a := fst (spec_Select ws (rank1z (flat ws) p)) in
+  p <= a < 64 * zlen ws /\ bitz (flat ws) a = true /\
+  (forall q, p <= q < a -> bitz (flat ws) q = false) /\
+  (bitz (flat ws) p = true -> a = p).
+Proof. exact select_after_rank_least. Qed.
+Print Assumptions C02_select_of_rank_least.
+
+Theorem C02_SelectFrom_is_select_of_rank : forall ws p, 0 <= p <= 64 * zlen ws ->
+  rank1z (flat ws) p < zlen (all_ones ws) ->
+  spec_Select ws (rank1z (flat ws) p) = spec_SelectFrom ws p.
+Proof. exact select_after_rank. Qed.
+Print Assumptions C02_SelectFrom_is_select_of_rank.
+
+(** non-vacuity: p = 64 is a 0-bit with a whole empty word and 63 more 0-bits before the next
+    1-bit (position 191); p = 191 is that 1-bit itself; p = 192 is the last 1-bit *)
+Example C02_select_of_rank_nonvacuous :
+  0 <= 64 < 64 * zlen c02_ex /\
+  Rank64 c02_ex (IndexRank64 c02_ex true) 64 = Some (33, 0) /\ 33 < zlen (all_ones c02_ex) /\
+  Select32 c02_ex [0; 32] 33 = Some (191, 192) /\ spec_SelectFrom c02_ex 64 = (191, 192) /\
+  Rank128 c02_ex (IndexRank128 c02_ex) 191 = Some (33, 1) /\ spec_SelectFrom c02_ex 191 = (191, 192) /\
+  Rank128 c02_ex (IndexRank128 c02_ex) 192 = Some (34, 1) /\
+  Select32R64 c02_ex [0; 32] [0; 33; 33; 34; 35] 34 = Some (192, 256) /\
+  spec_SelectFrom c02_ex 192 = (192, 256).
+Proof. vm_compute. intuition congruence. Qed.
